@@ -36,6 +36,7 @@ func (dp decProp) body(o decOpts, st *propStats) func(t *rapid.T) {
 			return
 		}
 		beginCase(dp.prop, o.vehicle, func() any { return x.Case() })
+		defer endCase() // also when rapid abandons the case half-way (fuzzing: input used up)
 		genDecHistory(t, x, o)
 		x.finish()
 		endCase()
